@@ -99,6 +99,14 @@ def deep(n):
     if n <= 0:
         return 100 // n
     return deep(n - 1) + 1
+
+
+exit = 'door'
+open = 5
+
+
+def shadowed(extra=0):
+    return (exit, open, extra)
 '''
 
 RISKS = {
@@ -436,7 +444,7 @@ ARG_VALUES = ['0', '1', '-7', '9', '40', '10 ** 30', '2.5', '-0.0', '0.1 + 0.2',
               "b'bytes'", '(1+2j)', 'range(3)', "'naïve ✓'"]
 CALLABLES = {  # name -> (min args, max args, accepts kwargs)
     'echo': (1, 1, False), 'pair': (1, 4, True), 'first': (1, 1, False), 'total': (1, 1, False), 'h0': (1, 2, False),
-    'fact': (1, 1, False), 'deep': (1, 1, False), 'bump': (0, 1, False), 'describe': (1, 2, False), 'shout': (1, 2, False), 'Acc': (1, 1, False),
+    'fact': (1, 1, False), 'deep': (1, 1, False), 'shadowed': (0, 1, False), 'bump': (0, 1, False), 'describe': (1, 2, False), 'shout': (1, 2, False), 'Acc': (1, 1, False),
 }
 
 
